@@ -815,6 +815,26 @@ func repeatedGrowth(c *explore.Ctx) {
 	if used > budget(len(in)) {
 		c.Fail("growth:alloc:"+k.name, "Unmarshal of %s allocated %d bytes (bound %d)", desc, used, budget(len(in)))
 	}
+	// history: after one very long message of this kind, a short one is decoded again: what the package
+	// remembers of the long one must not be paid for by the short one
+	if n <= 12 && pv == nil && err == nil {
+		long := bytes.Repeat(k.elem, 300000)
+		if k.wrap != nil {
+			long = k.wrap(long)
+		}
+		explore.Catch(func() { proto.Unmarshal(long, k.mk()) })
+		after := ^uint64(0)
+		for rep := 0; rep < 3; rep++ {
+			b1 := allocated()
+			run()
+			if u := allocated() - b1; u < after {
+				after = u
+			}
+		}
+		if after > budget(len(in)) {
+			c.Fail("growth:alloc-after-a-long-message:"+k.name, "after a message with 300000 occurrences, Unmarshal of %s allocates %d bytes (bound %d)", desc, after, budget(len(in)))
+		}
+	}
 	c.NontrivialStr("growth", k.name, fmt.Sprint(n))
 	c.Outcome(fmt.Sprintf("n>10=%v", n > 10))
 	c.Case(map[string]any{"kind": k.name, "elements": n, "input_bytes": len(in), "allocated": used})
@@ -830,7 +850,7 @@ func Spec() *explore.Spec {
 			{Name: "length3", ShardDepth: 2, Body: length3, Doc: "all byte strings of length 3 over all 256 values for 6 representative targets"},
 			{Name: "mutations", ShardDepth: 2, Body: mutations, Doc: "valid encodings of boundary values: every prefix, every (position x 256) corruption, every byte replaced by special varints (0,1,127,128,2^31-1,2^32,2^63,2^64-1, 11-byte)"},
 			{Name: "depth-ladder", ShardDepth: 3, HangSeconds: 300, MaxWorkers: 8, Body: depthLadder, Doc: "messages nested 100 ... 4,000,000 deep by the sender through a pointer field, a repeated field and a map value of a recursive message type, complete and cut by one byte: an error or a value, no stack overflow"},
-			{Name: "repeated-growth", ShardDepth: 2, Body: repeatedGrowth, Doc: "repeated fields of 8 element kinds (varint, fixed, string, bytes, message, pointer to message, inside a map value, inside a nested message) receiving 0..12, 16, 20..24, 33, 100, 1000 elements: decodes, keeps every element, and allocates within the bound (the backing array is regrown geometrically)"},
+			{Name: "repeated-growth", ShardDepth: 2, Body: repeatedGrowth, Doc: "repeated fields of 8 element kinds (varint, fixed, string, bytes, message, pointer to message, inside a map value, inside a nested message) receiving 0..12, 16, 20..24, 33, 100, 1000 elements: decodes, keeps every element, and allocates within the bound (the backing array is regrown geometrically); the short ones again after a message with 300000 occurrences"},
 			{Name: "unknown-insertion", ShardDepth: 2, Body: unknownInsertion, Doc: "one unknown field (4 numbers x 8 wire forms), and runs of two and three unknown fields (the same number in the same and in another wire form, two numbers), inserted at every top-level and nested field boundary of valid encodings; decoded value must not change"},
 		},
 		Rule: "exhaustive short inputs and complete mutation sets of valid encodings per target type; distinct non-trivial = distinct (target, mode/encoding) blocks",
